@@ -145,6 +145,8 @@ Fixpoint substitute (s : schema) (v : value) {struct s} : result schema :=
           match v with
           | VList l =>
               if (negb (Nat.eqb (length l) 0)) && forallb is_vell l then Err SubstErr else
+              (* `...` only as the first or the last item of the value (value[1:-1]) *)
+              if existsb is_vell (removelast (tl l)) then Err SubstErr else
               match ty, es with
               | None, None =>
                   do els <- rsequence (map (fun x => if is_vell x then Ok None
